@@ -73,7 +73,21 @@ fn check(ctx: &Ctx, meta: &Option<Vec<(String, Meta)>>, comp: Comp, label: &str,
 	}
 	let detail = json!({"metadata": meta.as_ref().map(|t| crate::cmp::trunc(&format!("{:?}", t)))});
 	let fail = |sig: &str, msg: String| Fail::new(format!("op=metadata {}", sig), msg).with_file("slp", &bytes).with_detail(detail.clone());
-	let g = rt::slp_read_default(&bytes).expect_ok("slippi::read").map_err(|f| f.with_file("slp", &bytes).with_detail(detail.clone()))?;
+	// beyond the 127-level format limit the reader may refuse; but whatever it accepts must satisfy
+	// the whole property (an accepted tree that cannot survive .slpp is a violation)
+	let over_limit = meta.as_ref().map_or(false, |t| tree_features(t).3 > 127);
+	let g = match rt::slp_read_default(&bytes) {
+		rt::Out::Err(_) if over_limit => {
+			if counting {
+				ctx.class("over_limit_depth_rejected");
+			}
+			return Ok(());
+		}
+		o => o.expect_ok("slippi::read").map_err(|f| f.with_file("slp", &bytes).with_detail(detail.clone()))?,
+	};
+	if over_limit && counting {
+		ctx.class("over_limit_depth_accepted");
+	}
 	match (meta, &g.metadata) {
 		(None, None) => {}
 		(Some(t), Some(got)) => meta_eq_json(t, got).map_err(|e| fail("read", format!("read tree differs: {}", e)))?,
@@ -153,7 +167,8 @@ fn gen_tree(dna: &[u8], depth: usize) -> (Option<Vec<(String, Meta)>>, Comp) {
 			Some(m)
 		}
 		250..=255 => {
-			let depth = 1 + d.below(126);
+			// chains up to and slightly beyond the 127-level limit (beyond: accepted => must still hold)
+			let depth = 1 + d.below(131);
 			let mut m = vec![("leaf".to_string(), Meta::Int(-(d.u16() as i32)))];
 			for i in 0..depth {
 				m = vec![(format!("n{}", i % 7), Meta::Map(m))];
@@ -165,7 +180,7 @@ fn gen_tree(dna: &[u8], depth: usize) -> (Option<Vec<(String, Meta)>>, Comp) {
 	(t, comp)
 }
 
-const FIXED: usize = 13;
+const FIXED: usize = 16;
 fn fixed(i: usize) -> Option<Vec<(String, Meta)>> {
 	let s = |x: &str| Meta::Str(x.to_string());
 	match i {
@@ -181,6 +196,13 @@ fn fixed(i: usize) -> Option<Vec<(String, Meta)>> {
 		10 => Some((0..300).map(|i| (format!("m{}", i), Meta::Map(vec![]))).collect()),
 		11 => Some((0..6).map(|a| (format!("a{}", a), Meta::Map((0..6).map(|b| (format!("b{}", b), Meta::Map((0..6).map(|c| (format!("c{}", c), Meta::Map(vec![("v".into(), Meta::Int(a * 36 + b * 6 + c))]))).collect()))).collect()))).collect()),
 		12 => Some((0..60).map(|p| (format!("{}", p), Meta::Map(vec![("characters".into(), Meta::Map(vec![("1".into(), Meta::Int(p))])), ("names".into(), Meta::Map(vec![("netplay".into(), s("x")), ("code".into(), s("A#1"))]))]))).collect()),
+		13 | 14 | 15 => {
+			let mut m = vec![("leaf".to_string(), Meta::Int(-7))];
+			for k in 0..(114 + i) {
+				m = vec![(format!("n{}", k % 3), Meta::Map(m))];
+			}
+			Some(m)
+		}
 		_ => {
 			let mut m = vec![("leaf".to_string(), Meta::Int(-7))];
 			for k in 0..126 {
